@@ -233,7 +233,11 @@ def _check_proofs(pid, tier, res, t0):
                                 "Baize.%s.Properties" % pid], cwd=COQ, capture_output=True,
                                text=True, timeout=1500)
             res["coqchk"] = "ok" if r.returncode == 0 else "FAILED: " + (r.stderr or r.stdout)[-800:]
-            res["coqchk_axioms"] = re.findall(r"^\s+(\S+)$", r.stdout.split("Axioms:")[-1], re.M) if "Axioms:" in r.stdout else []
+            # coqchk's context summary: "* Axioms: <none>" or the list, one per line, up to the next "* " item
+            m = re.search(r"\* Axioms:(.*?)(?:\n\s*\* |\Z)", r.stdout, re.S)
+            ax = m.group(1).strip() if m else ""
+            res["coqchk_axioms"] = [] if ax in ("", "<none>") else ax.split()
+            res["coqchk_summary"] = " ".join(r.stdout[r.stdout.find("CONTEXT SUMMARY"):].split())[:600]
             if r.returncode != 0:
                 res["ok"] = False
                 res["error"] = "coqchk failed"
@@ -757,6 +761,8 @@ def run_check(mod, tier, seed, replay=None):
                 "checker_cmd": proofs["checker_cmd"], "trusted_base": trusted,
                 "theorems": proofs["theorems"], "assumptions_printed": proofs["axioms"],
                 "coqchk": proofs.get("coqchk", "thorough tier only"),
+                "coqchk_axioms": proofs.get("coqchk_axioms", "thorough tier only"),
+                "coqchk_summary": proofs.get("coqchk_summary", "thorough tier only"),
                 "evaluations": len(cases), "distinct_nontrivial": len(ntriv),
                 "rule": getattr(mod, "RULE", ""),
                 "samples": [{"case": lines[i][:400], "implementation": impl_lines[i][:400], "model": model_lines[i][:400]}
